@@ -21,7 +21,9 @@ from harness.props import c08_pipeline
 
 # gen_flags / gen_refine_consts / gen_constants: the constants of the tree under test used by the composed
 # pipeline model (Extract/X21.v)
-GEN = ["gen_callbacks", "gen_flags", "gen_refine_consts", "gen_constants"]
+# gen_scale_arith: Gen/ScaleArith.v = run_prepare translated from the ast (interval arithmetic of both branches, origin of
+# the images / pyramids / output datasets); obligations in Proofs/ScaleArithGenP.v, theorems C08_gen_*
+GEN = ["gen_callbacks", "gen_flags", "gen_refine_consts", "gen_constants", "gen_scale_arith"]
 EXTRACT_FILES = ["X08", "X21"]
 DRIVERS = ["x08", "x21"]
 RULE = ("random legal pipelines (sad/ssd/census/zncc, cbca, confidence steps, wta, median/bilateral, vfit/quadratic, "
@@ -299,4 +301,12 @@ def run_wiring(ctx):
                               "adding a cross-checking step without filling changed the left disparity map", case)
     ctx.gen_obligations = ["callbacks_ok Gen.Callbacks.gen_callback = true (vm_compute)",
                            "callbacks_lclosed Gen.Callbacks.gen_callback = true (vm_compute)",
-                           "callbacks_rquiet Gen.Callbacks.gen_callback = true (vm_compute)"]
+                           "callbacks_rquiet Gen.Callbacks.gen_callback = true (vm_compute)",
+                           "Gen.ScaleArith.run_prepare_mono = model_prepare_mono: interval as given, right interval as given or "
+                           "(-max, -min) (C08_gen_prepare_mono_is_model)",
+                           "Gen.ScaleArith.run_prepare_{multi,mono}_wiring = the hand-written tables and are symmetric under the "
+                           "exchange of left and right (C08_gen_prepare_wiring, vm_compute)",
+                           "prepare_single / prepare_multi of Proofs/MirrorP.v (initial states of the mirror theorems), instantiated "
+                           "with unary minus and / scale_factor ** num_scales on rationals, = the state the generated run_prepare "
+                           "builds, slot by slot (C08_gen_prepare_single_is_model, C08_gen_prepare_multi_is_model: reflexivity on "
+                           "the regenerated text); neg_invol / dv_neg hold for that arithmetic (C08_gen_interval_hypotheses)"]
